@@ -68,6 +68,7 @@ type Task struct {
 	// the baton), stArrived (back from it, waiting for the baton).
 	state     int32
 	keptBaton bool
+	selRot    int // rotation of the case order of the select being polled
 }
 
 const (
@@ -130,6 +131,7 @@ type Sched struct {
 
 	held             [maxTasks]int
 	SkippedUnderLock int
+	Selects          int  // select statements whose case order was drawn
 	BlockOps         int  // possibly blocking operations bracketed
 	BlockedWaits     int  // ... that really had to wait for another task
 	Deadlock         bool // every live task is blocked inside the code under test
@@ -560,6 +562,40 @@ func (s *Sched) Yield(kind int, label string, inOp bool) {
 		t.ioIssue = 0
 	}
 	raceEnable()
+}
+
+// SelBegin is called by the running task before it polls the cases of a
+// select statement of the code under test (see the overlay's select
+// pre-pass): the order in which the cases are tried comes from the tape.
+//
+//go:norace
+func (s *Sched) SelBegin(label string, k int) {
+	if !s.active || k < 2 {
+		return
+	}
+	t := s.tasks[s.cur]
+	if curGoid() != t.goid {
+		s.Foreign = true
+		return
+	}
+	t.selRot = s.tape.Choose(k)
+	s.Selects++
+	s.mixHash(t.ID, KindLock, label)
+}
+
+// SelNext returns the case to try at position i.
+//
+//go:norace
+func (s *Sched) SelNext(i, k int) int {
+	if !s.active || k < 2 {
+		return i
+	}
+	t := s.tasks[s.cur]
+	if curGoid() != t.goid {
+		s.Foreign = true
+		return i
+	}
+	return (t.selRot + i) % k
 }
 
 // BlockBegin is called by the running task immediately before an operation
